@@ -77,7 +77,7 @@ CLAIMED = {
          'DESIGN.md section 6 C03'),
  'C04': ('Coq proof (returned vector is a certified stationary probability vector; strict mode rejects) + differential correspondence within 1e-9 and exact relational checker',
          'proof (partial): whatever the model returns is a probability vector stationary for T (ergodic) resp. for the renormalised restriction to the ergodic mask, and strict mode rejects every non-ergodic '
-         'input (theorems); uniqueness of the stationary vector is the textbook fact, stated but not proved. Tie: |pi_impl - pi_exact| <= 1e-9 where the exact vector is unique, the exact checker peq_ok on every accepted output, error iff.',
+         'input (theorems); the stationary probability vector of a matrix with an entrywise positive power is unique (stationary_unique_thm, peq_unique: proved); for the non-ergodic branch uniqueness on the restricted matrix is certified per case. Tie: |pi_impl - pi_exact| <= 1e-9 where the exact vector is unique, the exact checker peq_ok on every accepted output, error iff.',
          COMMON_NOTE + 'One genuine defect (periodic classes) is a recorded known finding.',
          'DESIGN.md section 6 C04'),
  'C06': ('Coq proof (event automaton = reference extraction; loop erasure invariants; dictionary partition; sorted-merge intersection) + differential correspondence, exhaustive small scope',
@@ -96,9 +96,9 @@ CLAIMED = {
          'joint frame permutations change nothing, wrapper = formula incl. rejections (Coq theorems); tie: random pairs of labelings (N up to 3000, thorough 1e5; thread counts) against the exact rational value.',
          COMMON_NOTE + 'float summation order of the parallel reduction is covered by the 1e-10 tolerance only.',
          'DESIGN.md section 6 C13'),
- 'C14': ('Coq proof (positive power entry iff walk; soundness of the power test; completeness for graphs with a self-loop; boolean powers) + two-layer differential correspondence',
-         'proof (partial): entry of T^k positive iff walk of length k; reported ergodic => strongly connected, aperiodic, primitive; ergodic => fuzzy; non-stochastic => neither; threshold-free equivalence; completeness proved for lazy-connected graphs with a self-loop '
-         '(2(n-1) <= (n-1)^2+1); the general Wielandt bound and the mask clause are compared against an independent exact graph algorithm (all 4x4 supports in the thorough tier), not proved. '
+ 'C14': ('Coq proof (positive power entry iff walk; soundness and completeness of the power test via the Wielandt bound; boolean powers) + two-layer differential correspondence',
+         'proof: entry of T^k positive iff walk of length k; reported ergodic => strongly connected, aperiodic, primitive; conversely (Wielandt bound (n-1)^2+1, proved for every n in Proofs/Wielandt.v) strongly connected and aperiodic => every entry of the power positive, so for accepted threshold-free matrices '
+         'is_ergodic <=> strongly connected and aperiodic (is_ergodic_iff_graph_thm); ergodic => fuzzy; non-stochastic => neither; the mask clause: see evidence (theorems of Proofs/MaskFacts.v when present) and the comparison with an independent exact graph algorithm (all 4x4 supports in the thorough tier). '
          'Tie: implementation vs exact thresholded power away from the thresholds; model vs graph specification on threshold-free cases.',
          COMMON_NOTE + 'np.linalg.matrix_power floats trusted away from the 1e-8 threshold (cases within 1e-12 skipped and counted).',
          'DESIGN.md section 6 C14'),
